@@ -19,6 +19,7 @@ type C05Case struct {
 	Shape []int  `json:"shape"` // envelopes per call (1 = unary, n>=2 = stream with n-2 or n-1 bodies, see below)
 	Order []int  `json:"order"` // interleaving: sequence of call indices, a permutation of the multiset given by Shape
 	Ser   bool   `json:"ser"`
+	Pad   int    `json:"pad,omitempty"` // payloads padded to this many bytes (0 = 4-byte tokens)
 }
 
 // multiset permutations of {0^s0, 1^s1, ...} in lexicographic order
@@ -66,28 +67,36 @@ func c05Shapes() [][]int {
 	return [][]int{{2, 2}, {1, 3}, {2, 2, 2}, {3, 2, 1}, {1, 1, 1}, {3, 3}}
 }
 
-func c05Token(call, j int) []byte { return []byte{0xC5, byte(call), byte(j), 0x5C} }
+// c05Token is the payload of envelope j of call `call`; pad > 0 pads it to that many bytes with a fill that differs per
+// (call, j), so that messages large enough for the codec's pooled buffers (>1KiB) are told apart byte by byte.
+func c05Token(call, j, pad int) []byte {
+	b := []byte{0xC5, byte(call), byte(j), 0x5C}
+	for len(b) < pad {
+		b = append(b, byte(0x10*call+j+1))
+	}
+	return b
+}
 
 // client side: response scripts. n=1: unary reply; n>=2: n-1 bodies then a trailer.
-func c05Responses(call, n int) []kit.EnvSpec {
+func c05Responses(call, n, pad int) []kit.EnvSpec {
 	if n == 1 {
-		return []kit.EnvSpec{{Body: &kit.Payload{Class: "lit", Lit: c05Token(call, 0)}, Wrap: true, Trailer: true}}
+		return []kit.EnvSpec{{Body: &kit.Payload{Class: "lit", Lit: c05Token(call, 0, pad)}, Wrap: true, Trailer: true}}
 	}
 	var out []kit.EnvSpec
 	for j := 0; j < n-1; j++ {
-		out = append(out, kit.EnvSpec{Body: &kit.Payload{Class: "lit", Lit: c05Token(call, j)}, Wrap: true})
+		out = append(out, kit.EnvSpec{Body: &kit.Payload{Class: "lit", Lit: c05Token(call, j, pad)}, Wrap: true})
 	}
 	return append(out, kit.EnvSpec{Status: &kit.StatusSpec{Code: 0, Msg: "OK"}, Trailer: true, TrlMD: []kit.RawKV{{K: "call", V: fmt.Sprint(call)}}})
 }
 
 // server side: request scripts. n=1: unary request; n=2: open+trailer; n>=3: open, n-2 bodies, trailer.
-func c05Requests(call, n int) []kit.EnvSpec {
+func c05Requests(call, n, pad int) []kit.EnvSpec {
 	if n == 1 {
-		return []kit.EnvSpec{{Body: &kit.Payload{Class: "lit", Lit: c05Token(call, 0)}, Wrap: true}}
+		return []kit.EnvSpec{{Body: &kit.Payload{Class: "lit", Lit: c05Token(call, 0, pad)}, Wrap: true}}
 	}
 	out := []kit.EnvSpec{{HdrMD: []kit.RawKV{{K: "call", V: fmt.Sprint(call)}}}}
 	for j := 0; j < n-2; j++ {
-		out = append(out, kit.EnvSpec{Body: &kit.Payload{Class: "lit", Lit: c05Token(call, j)}, Wrap: true})
+		out = append(out, kit.EnvSpec{Body: &kit.Payload{Class: "lit", Lit: c05Token(call, j, pad)}, Wrap: true})
 	}
 	return append(out, kit.EnvSpec{Status: &kit.StatusSpec{Code: 0, Msg: "OK"}, Trailer: true})
 }
@@ -165,7 +174,7 @@ func execC05(t *testing.T, c C05Case) (v Verdict) {
 			}
 			scripts := make([][]kit.EnvSpec, k)
 			for i, n := range c.Shape {
-				scripts[i] = c05Responses(i, n)
+				scripts[i] = c05Responses(i, n, c.Pad)
 			}
 			for _, call := range c.Order {
 				e := scripts[call][0]
@@ -223,7 +232,7 @@ func execC05(t *testing.T, c C05Case) (v Verdict) {
 		raw := w.Links[0].A
 		scripts := make([][]kit.EnvSpec, k)
 		for i, n := range c.Shape {
-			scripts[i] = c05Requests(i, n)
+			scripts[i] = c05Requests(i, n, c.Pad)
 		}
 		for _, call := range c.Order {
 			e := scripts[call][0]
@@ -250,14 +259,14 @@ func execC05(t *testing.T, c C05Case) (v Verdict) {
 		var want [][]byte
 		switch {
 		case c.Side == "client" && n == 1, c.Side == "server" && n == 1:
-			want = [][]byte{c05Token(i, 0)}
+			want = [][]byte{c05Token(i, 0, c.Pad)}
 		case c.Side == "client":
 			for j := 0; j < n-1; j++ {
-				want = append(want, c05Token(i, j))
+				want = append(want, c05Token(i, j, c.Pad))
 			}
 		default:
 			for j := 0; j < n-2; j++ {
-				want = append(want, c05Token(i, j))
+				want = append(want, c05Token(i, j, c.Pad))
 			}
 		}
 		if !o[i].done {
@@ -298,7 +307,7 @@ func execC05(t *testing.T, c C05Case) (v Verdict) {
 			switches++
 		}
 	}
-	v.Info = kit.CaseInfo{Labels: []string{"side=" + c.Side, fmt.Sprintf("calls=%d", k)}, NonTrivial: switches >= 1,
+	v.Info = kit.CaseInfo{Labels: []string{"side=" + c.Side, fmt.Sprintf("calls=%d", k), fmt.Sprintf("pooled_payloads=%v", c.Pad > 1024)}, NonTrivial: switches >= 1,
 		Key: fmt.Sprintf("%+v", c), Sample: map[string]any{"side": c.Side, "envelopes_per_call": c.Shape, "interleaving": c.Order}}
 	if v.Fail != "" {
 		v.Detail = map[string]any{"wire": tapSummary(tap, 60)}
@@ -321,7 +330,7 @@ func TestC05Enum(t *testing.T) {
 }
 
 func genC05(t *rapid.T) C05Case {
-	c := C05Case{Side: rapid.SampledFrom([]string{"client", "server"}).Draw(t, "side"), Ser: rapid.Bool().Draw(t, "ser")}
+	c := C05Case{Side: rapid.SampledFrom([]string{"client", "server"}).Draw(t, "side"), Ser: rapid.Bool().Draw(t, "ser"), Pad: rapid.SampledFrom([]int{0, 0, 1100, 1500, 5000, 20000}).Draw(t, "pad")}
 	k := rapid.IntRange(2, 8).Draw(t, "k")
 	left := []int{}
 	for i := 0; i < k; i++ {
